@@ -5,8 +5,13 @@ package xpath
 // VerifResetPluginState re-arms the lazy plugin load so that a verification
 // harness can exercise the cold-start window of LookupXpathFunction more than
 // once per process.  Only compiled with the 'verif' build tag.
+//
+// It also forgets which functions runs with argument validation have
+// exercised, so that the first such runs after it meet the empty table that
+// the first runs of a process meet.
 func VerifResetPluginState() {
 	mu.Lock()
 	pluginsLoaded = false
+	testedFunctionTable = make(map[string]bool)
 	mu.Unlock()
 }
